@@ -374,8 +374,11 @@ def inverter_requests(job) -> list[dict]:
     spec = {"family": fam, "port": port, "sim": sim, "retries": 0}
     if comm:
         spec["comm_addr"] = comm
+    # reads, a single-register write and a multi-register write (the clock) through the public API
     tr = run_program({"inv": [spec], "calls": [{"api": "read_device_info"}, {"api": "read_runtime_data"},
-                                                {"api": "read_setting", "args": ["grid_export_limit"]}]})
+                                                {"api": "read_setting", "args": ["grid_export_limit"]},
+                                                {"api": "write_setting", "args": ["grid_export_limit", 1234]},
+                                                {"api": "write_setting", "args": ["time", {"dt": [2024, 2, 29, 23, 59, 58]}]}]})
     want = comm if comm else (0x7F if fam == "DT" else 0xF7)
     fr = "tcp" if port == 502 else "rtu"
     out = []
@@ -490,7 +493,7 @@ def check(prop: str, tier: str, seed: int) -> int:
     else:
         cases = gen_request_cases(tier, rnd) + gen_txhist(tier)
         jobs = [(fam, port, comm) for fam, port in (("ET", 8899), ("ET", 502), ("DT", 8899), ("DT", 502))
-                for comm in ((0, 0x11, 0x7F, 0xF7, 0xFE) if tier == "quick" else (0, 1, 0x11, 0x7F, 0x80, 0xF7, 0xFE, 0xFF))]
+                for comm in ((0, 1, 0x11, 0x7F, 0x80, 0xF6, 0xF7, 0xF8, 0xFE, 0xFF) if tier == "quick" else range(256))]
         for lst in engine.parallel_map("harness.checks_wire", "inverter_requests", jobs, procs=16, chunk=2):
             cases += lst
         own = ("C03.",)
